@@ -25,7 +25,8 @@ FieldPool == <<
   [name |-> "fixed", ty |-> "[u8; 2]"], [name |-> "boxed", ty |-> "Box<Inner>"],
   [name |-> "map", ty |-> "std::collections::HashMap<String, i64>"], [name |-> "inner", ty |-> "Inner"],
   [name |-> "kind", ty |-> "Kind"], [name |-> "opt_inner", ty |-> "Option<Inner>"], [name |-> "nested", ty |-> "Vec<Option<Inner>>"],
-  [name |-> "r#type", ty |-> "i64"] >>
+  [name |-> "r#type", ty |-> "i64"],
+  [name |-> "single", ty |-> "(i64,)"], [name |-> "singles", ty |-> "Vec<(String,)>"] >>
 VariantKinds == <<
   [vkind |-> "unit", tys |-> << >>, fields |-> << >>],
   [vkind |-> "newtype", tys |-> <<"i64">>, fields |-> << >>],
@@ -35,6 +36,7 @@ VariantKinds == <<
   [vkind |-> "tuple", tys |-> <<"i64", "String", "bool">>, fields |-> << >>],
   [vkind |-> "newtype", tys |-> <<"Vec<i64>">>, fields |-> << >>],
   [vkind |-> "newtype", tys |-> <<"String">>, fields |-> << >>],
+  [vkind |-> "newtype", tys |-> <<"(i64,)">>, fields |-> << >>],
   [vkind |-> "struct", tys |-> << >>, fields |-> << [name |-> "x_val", ty |-> "i64", attrs |-> {}],
                                                        [name |-> "y_val", ty |-> "Option<String>", attrs |-> {}] >>] >>
 VarName(i) == CASE i = 1 -> "Alpha" [] i = 2 -> "BetaGamma" [] i = 3 -> "Delta"
@@ -47,7 +49,7 @@ ChooseKind ==
     /\ \/ d' = [kind |-> "struct", fields |-> << >>, container |-> {}]
        \/ \E t \in {"external", "internal", "adjacent", "untagged"} :
             d' = [kind |-> "enum", tagging |-> t, variants |-> << >>, container |-> {}]
-       \/ \E tys \in { <<"i64", "String">>, <<"String">>, <<"Inner">>, <<"Vec<u8>">>, << >> } :
+       \/ \E tys \in { <<"i64", "String">>, <<"String">>, <<"Inner">>, <<"Vec<u8>">>, <<"(i64,)">>, << >> } :
             d' = [kind |-> "tuple_struct", tys |-> tys, container |-> {}]
 
 AddField ==
